@@ -763,7 +763,7 @@ def drop_attr_lines(chunk, keep_derive=None):
             if keep_derive:
                 out.append(Line(re.sub(r'#\[derive\([^\]]*\)\]', keep_derive, l.text), ('rw', 'derive', l.origin)))
             continue
-        if s.startswith('#[must_use]') or s.startswith('#[inline') or s.startswith('#[allow') or s.startswith('#[doc'):
+        if s.startswith('#[must_use]') or s.startswith('#[inline') or s.startswith('#[allow') or s.startswith('#[doc') or s.startswith('#[serde') or s.startswith('#[derivative'):
             continue
         out.append(l)
     chunk.lines = out
